@@ -157,6 +157,100 @@ def own_helpers(cls, entry):
     return flt
 
 
+def _sweep_name(prog):
+    acc = prog.method(SERVICE_RUNNER, "accept")
+    for n in ast.walk(acc.node):
+        if isinstance(n, ast.Call) and isinstance(n.func, ast.Attribute) and n.func.attr == "adopt" and n.args:
+            d = util.dotted(n.args[0])
+            if d and d.startswith("self."):
+                return d.split(".")[1]
+    raise Undecided("accept does not adopt a sweep coroutine", acc.node)
+
+
+def _sweep_adopted_elsewhere(prog):
+    """(method, call node, coroutine name) of `self.adopt(self.<own coroutine>, ...)` outside accept"""
+    cls = prog.cls(SERVICE_RUNNER)
+    for fis in cls.methods.values():
+        for f in fis:
+            if f.name == "accept":
+                continue
+            for n in ast.walk(f.node):
+                if isinstance(n, ast.Call) and isinstance(n.func, ast.Attribute) and n.func.attr in ("adopt", "register_payload") and n.args:
+                    d = util.dotted(n.args[0])
+                    if d and d.startswith("self.") and d.count(".") == 1:
+                        g = prog.lookup_method(cls, d.split(".")[1])
+                        if g is not None and g.is_async:
+                            return f, n, g.name
+    return None
+
+
+def flag_writers(chk, rule="O12.4"):
+    """who may write the shutdown request flag: __init__ (False), accept (False, before anything is started), shutdown (True).
+    Shared with C03: the sweep that starts the services only runs when a new accept begins with a clean flag and nothing
+    clears or sets the flag behind its back"""
+    prog = chk.program
+    cls = prog.cls(SERVICE_RUNNER)
+    try:
+        sweep_name = _sweep_name(prog)
+    except Undecided:
+        other = _sweep_adopted_elsewhere(prog)
+        if other is None:
+            raise
+        f, n_, g = other
+        chk.bad(rule, f.qual, "the sweep %s is adopted in %s instead of in accept: it is queued once per object and used up by the first run, so a later accept() of the same runner runs no sweep and starts no service" % (g, f.name), node=n_, stmt="sweep adopted in %s" % f.name)
+        return False
+    ok = True
+    n = 0
+    for fis in cls.methods.values():
+        for f in fis:
+            for node in ast.walk(f.node):
+                if isinstance(node, (ast.Assign, ast.AugAssign, ast.AnnAssign)):
+                    tg = node.targets if isinstance(node, ast.Assign) else [node.target]
+                    for t in tg:
+                        if isinstance(t, ast.Attribute) and t.attr == slots.shutdown_flag(prog):
+                            n += 1
+                            chk.count()
+                            val = node.value.value if isinstance(node.value, ast.Constant) else None
+                            if f.name == "__init__" and val is False:
+                                continue
+                            if f.name == "shutdown" and val is True:
+                                continue
+                            if f.name == "accept" and val is False:
+                                # must precede starting anything
+                                body = f.node.body
+                                first_call = min((s.lineno for s in body if any(isinstance(x, ast.Call) and isinstance(x.func, ast.Attribute) and x.func.attr in ("adopt", "run") for x in ast.walk(s))), default=10**9)
+                                if node.lineno < first_call:
+                                    continue
+                                chk.bad(rule, f.qual, "accept resets the shutdown request flag after it has started the sweep / the runners: a request made in between is lost", node=node, stmt="reset-late")
+                                ok = False
+                                continue
+                            callers = {g.name for gs in cls.methods.values() for g in gs for c_ in ast.walk(g.node) if isinstance(c_, ast.Call) and util.dotted(c_.func) == "self." + f.name}
+                            if callers and ((callers <= {"__init__", "accept"} and val is False) or (callers <= {"shutdown"} and val is True)):
+                                if "accept" in callers:
+                                    acc_ = prog.method(SERVICE_RUNNER, "accept")
+                                    first_call = min((s_.lineno for s_ in acc_.node.body if any(isinstance(x, ast.Call) and isinstance(x.func, ast.Attribute) and x.func.attr in ("adopt", "run") for x in ast.walk(s_))), default=10**9)
+                                    mine = min((c_.lineno for c_ in ast.walk(acc_.node) if isinstance(c_, ast.Call) and util.dotted(c_.func) == "self." + f.name), default=10**9)
+                                    if mine < first_call:
+                                        continue
+                                else:
+                                    continue
+                            chk.bad(
+                                rule,
+                                f.qual,
+                                "the shutdown request flag is written (%s) in %s: a request issued by shutdown() %s can be overwritten, after which shutdown() blocks forever and accept() never returns"
+                                % (util.unparse(node.value), f.name, "after `running` is reported" if f.name == sweep_name else "concurrently"),
+                                node=node,
+                                stmt="flag-write in %s" % f.name,
+                            )
+                            ok = False
+    if n < 3:
+        chk.bad(rule, cls.qual, "the shutdown request flag is not (re)initialised in __init__, accept and shutdown (%d writes found): after one shutdown a new accept ends immediately" % n, node=cls.node, stmt="flag-writes")
+        ok = False
+    if ok and rule != "O12.4":
+        chk.ok(rule, cls.qual, "the shutdown request flag is written only in __init__ (False), accept (False, before starting) and shutdown (True): every accept runs its service sweep (%d writes)" % n, node=cls.node)
+    return ok
+
+
 def sweep(chk):
     prog = chk.program
     cls = prog.cls(SERVICE_RUNNER)
@@ -169,6 +263,18 @@ def sweep(chk):
             if d and d.startswith("self."):
                 sweep_name = d.split(".")[1]
     if sweep_name is None:
+        other = _sweep_adopted_elsewhere(prog)
+        if other is not None:
+            f, n, g = other
+            chk.bad(
+                "O12.4",
+                f.qual,
+                "the sweep %s is adopted in %s instead of in accept: it is queued once per object and used up by the first run (the pre-start queue is cleared when the runners start), so every later accept() of the same runner blocks in the meta runner "
+                "without a sweep -- `running` is never reported, shutdown() is never armed and accept() never returns" % (g, f.name),
+                node=n,
+                stmt="sweep adopted in %s" % f.name,
+            )
+            return
         raise Undecided("accept does not adopt a sweep coroutine", acc.node)
     fi = prog.lookup_method(cls, sweep_name)
     name = fi.qual
@@ -360,51 +466,7 @@ def sweep(chk):
     # ---- O12.4 who may write the request flag; restart ----------------------------------------
     rule = "O12.4"
     ok = True
-    n = 0
-    for fis in cls.methods.values():
-        for f in fis:
-            for node in ast.walk(f.node):
-                if isinstance(node, (ast.Assign, ast.AugAssign, ast.AnnAssign)):
-                    tg = node.targets if isinstance(node, ast.Assign) else [node.target]
-                    for t in tg:
-                        if isinstance(t, ast.Attribute) and t.attr == slots.shutdown_flag(prog):
-                            n += 1
-                            chk.count()
-                            val = node.value.value if isinstance(node.value, ast.Constant) else None
-                            if f.name == "__init__" and val is False:
-                                continue
-                            if f.name == "shutdown" and val is True:
-                                continue
-                            if f.name == "accept" and val is False:
-                                # must precede starting anything
-                                body = f.node.body
-                                first_call = min((s.lineno for s in body if any(isinstance(x, ast.Call) and isinstance(x.func, ast.Attribute) and x.func.attr in ("adopt", "run") for x in ast.walk(s))), default=10**9)
-                                if node.lineno < first_call:
-                                    continue
-                                chk.bad(rule, f.qual, "accept resets the shutdown request flag after it has started the sweep / the runners: a request made in between is lost", node=node, stmt="reset-late")
-                                ok = False
-                                continue
-                            callers = {g.name for gs in cls.methods.values() for g in gs for c_ in ast.walk(g.node) if isinstance(c_, ast.Call) and util.dotted(c_.func) == "self." + f.name}
-                            if callers and ((callers <= {"__init__", "accept"} and val is False) or (callers <= {"shutdown"} and val is True)):
-                                if "accept" in callers:
-                                    acc_ = prog.method(SERVICE_RUNNER, "accept")
-                                    first_call = min((s_.lineno for s_ in acc_.node.body if any(isinstance(x, ast.Call) and isinstance(x.func, ast.Attribute) and x.func.attr in ("adopt", "run") for x in ast.walk(s_))), default=10**9)
-                                    mine = min((c_.lineno for c_ in ast.walk(acc_.node) if isinstance(c_, ast.Call) and util.dotted(c_.func) == "self." + f.name), default=10**9)
-                                    if mine < first_call:
-                                        continue
-                                else:
-                                    continue
-                            chk.bad(
-                                rule,
-                                f.qual,
-                                "the shutdown request flag is written (%s) in %s: a request issued by shutdown() %s can be overwritten, after which shutdown() blocks forever and accept() never returns"
-                                % (util.unparse(node.value), f.name, "after `running` is reported" if f.name == sweep_name else "concurrently"),
-                                node=node,
-                                stmt="flag-write in %s" % f.name,
-                            )
-                            ok = False
-    if n < 3:
-        chk.bad(rule, cls.qual, "the shutdown request flag is not (re)initialised in __init__, accept and shutdown (%d writes found): after one shutdown a new accept ends immediately" % n, node=cls.node, stmt="flag-writes")
+    if not flag_writers(chk, rule):
         ok = False
     # fresh runners per run; running cleared in finally; close-all clears the mapping
     launch = slots.launcher(prog)
